@@ -62,6 +62,20 @@ class C13(DevProp):
             bi = len(cases)
             cases.append({"cfg": cfg, "abs": [], "events": h, "tag": "base"})
             blocked = pair_held_positions(cfg, h)
+            if len(cfg["exitseq"]) >= 3:
+                # the panic key is one key of a three-key exit sequence: no insertion where the panic press would COMPLETE it (that press is the
+                # exit request, swallowed by design); with the sequence only partly held panic is an ordinary panic
+                others = set(cfg["exitseq"]) - {PANIC_KEY}
+                down = set()
+                for n, e in enumerate(h):
+                    if others <= down:
+                        blocked[n] = True
+                    if e["t"] == "k" and e["val"] == 1:
+                        down.add(e["code"])
+                    elif e["t"] == "k" and e["val"] == 0:
+                        down.discard(e["code"])
+                if others <= down:
+                    blocked[len(h)] = True
             positions = [n for n in range(len(h) + 1) if not blocked[n]]
             if tier == "quick":
                 positions = rng.sample(positions, min(len(positions), 5))
@@ -104,6 +118,14 @@ class C13(DevProp):
         cfg["actions"].append({"code": PANIC_KEY, "action": "panic"})   # never pressed by the base history (alternation)
         if rng.random() < 0.5:
             h = h + devgen.release_all(h)
+        if rng.random() < 0.3:
+            # an exit sequence of three keys, one of them the panic key, the other two ordinary keys the base history plays with
+            pressed = []
+            for e in h:
+                if e["t"] == "k" and e["val"] == 1 and e["code"] not in pressed and e["code"] != PANIC_KEY2:
+                    pressed.append(e["code"])
+            if len(pressed) >= 2:
+                cfg["exitseq"] = [pressed[0], PANIC_KEY, pressed[1]]
         return cfg, h
 
     def soak_case(self, rng):
